@@ -54,10 +54,10 @@ std::string Value::str() const {
 }
 
 std::string Event::str() const {
-  static const char *names[] = {"block", "cond", "assert", "havoc", "call", "ret", "end", "fault"};
+  static const char *names[] = {"block", "cond", "assert", "havoc", "call", "ret", "end", "fault", "select"};
   std::string r = names[k];
   r += " " + a;
-  if (k == COND || k == ASSERT)
+  if (k == COND || k == ASSERT || k == SELECT)
     r += " #" + std::to_string(id) + (outcome ? " T" : " F");
   if (k == HAVOC || k == FAULT)
     r += " #" + std::to_string(id) + " = " + val;
@@ -401,7 +401,7 @@ struct Exec : public crab::cfg::statement_visitor<label_t, number_t, varname_t> 
     int c = cond(s.cond());
     if (c < 0)
       return;
-    m.log(Event::COND, label, idx, c);
+    m.log(Event::SELECT, label, idx, c);
     mpz_class r;
     if (eval(c ? s.left() : s.right(), r))
       set_int(s.lhs(), r);
@@ -510,7 +510,7 @@ struct Exec : public crab::cfg::statement_visitor<label_t, number_t, varname_t> 
     bool c, a, b;
     if (!get_bool(s.cond(), c) || !get_bool(s.left(), a) || !get_bool(s.right(), b))
       return;
-    m.log(Event::COND, label, idx, c);
+    m.log(Event::SELECT, label, idx, c);
     f.st.set(s.lhs(), Value::mk_bool(c ? a : b));
   }
 
@@ -853,7 +853,7 @@ struct Exec : public crab::cfg::statement_visitor<label_t, number_t, varname_t> 
     bool c;
     if (!get_bool(s.cond(), c))
       return;
-    m.log(Event::COND, label, idx, c);
+    m.log(Event::SELECT, label, idx, c);
     const auto &op = c ? s.left_ref() : s.right_ref();
     Value r;
     if (op.is_variable()) {
@@ -1140,10 +1140,8 @@ int TraceScheduler::choose_succ(Machine &m, const Frame &f, const std::string &b
                                 const std::vector<bool> &enabled) {
   if (f.depth != 0)
     return RandomScheduler::choose_succ(m, f, block, succs, enabled);
-  // path[pos] is the label of the block just executed; advance to the next
-  while (pos < path.size() && path[pos] != block)
-    pos++;
-  if (pos + 1 >= path.size()) {
+  // path[pos] is the label of the block just executed
+  if (pos >= path.size() || path[pos] != block || pos + 1 >= path.size()) {
     diverged = true;
     return -1;
   }
